@@ -23,6 +23,7 @@ import (
 	"reflect"
 	"strconv"
 	"strings"
+	"sync"
 	"testing"
 	"time"
 	"unsafe"
@@ -30,6 +31,7 @@ import (
 	"github.com/google/gopacket"
 	"github.com/google/gopacket/layers"
 	"github.com/google/uuid"
+	"github.com/rs/zerolog"
 	pkgaaa "github.com/veesix-networks/osvbng/pkg/aaa"
 	"github.com/veesix-networks/osvbng/pkg/allocator"
 	"github.com/veesix-networks/osvbng/pkg/component"
@@ -107,6 +109,35 @@ func (b *c03Bus) Publish(topic string, ev events.Event) {
 	default:
 		h.emit("?", "topic:"+topic)
 	}
+}
+
+// c03LogHook sees the component's debug log.  handleAAAResponse logs "Received AAA response" after it has found the
+// session by its pending request id and before it takes the session lock: that line tells the harness that the
+// answer has been matched and is now waiting for the lock the harness holds (forced overlap, see step "R:").
+type c03LogHook struct {
+	mu      sync.Mutex
+	armed   bool
+	reached chan struct{}
+}
+
+func (w *c03LogHook) Write(p []byte) (int, error) {
+	if strings.Contains(string(p), "Received AAA response") {
+		w.mu.Lock()
+		if w.armed {
+			w.armed = false
+			close(w.reached)
+		}
+		w.mu.Unlock()
+	}
+	return len(p), nil
+}
+
+func c03HookedLogger(w *c03LogHook) *logger.Logger {
+	l := logger.NewTest()
+	f := reflect.ValueOf(l).Elem().FieldByName("zl")
+	reflect.NewAt(f.Type(), unsafe.Pointer(f.UnsafeAddr())).Elem().Set(reflect.ValueOf(zerolog.New(w)))
+	logger.SetComponentLevel("test", logger.LogLevelDebug)
+	return l
 }
 
 type c03CfgMgr struct{ cfg *config.Config }
@@ -200,6 +231,7 @@ type c03Harness struct {
 	monCur  [3]int
 	monOK   [3]bool
 	monViol string
+	hook    *c03LogHook
 }
 
 func c03Service(tok string) bool {
@@ -211,6 +243,9 @@ func c03Service(tok string) bool {
 
 // monStep: ev is the input event, lcpBefore the LCP FSM states before it, outs the step's outputs (who+token).
 func (h *c03Harness) monStep(ev string, lcpBefore [3]int, availBefore int) {
+	if strings.HasPrefix(ev, "R:") {
+		ev = strings.SplitN(ev, "&", 2)[1]
+	}
 	f := strings.Split(ev, ":")
 	switch f[0] {
 	case "o", "x", "d":
@@ -407,7 +442,7 @@ func c03NewHarness(poolSize int) *c03Harness {
 	ifMgr.Add(&ifmgr.Interface{SwIfIndex: 10, SupSwIfIndex: 2, Name: "TenGigE0/0.100", Type: ifmgr.IfTypeSub, OuterVlanID: 100})
 	ifMgr.Add(&ifmgr.Interface{SwIfIndex: 2, Name: "TenGigE0/0", Type: ifmgr.IfTypeHardware, MAC: []byte{0x52, 0x54, 0x00, 0x11, 0x22, 0x33}})
 
-	h := &c03Harness{lastReq: map[string]uint8{}}
+	h := &c03Harness{lastReq: map[string]uint8{}, hook: &c03LogHook{}}
 	h.bus = &c03Bus{h: h}
 	h.sb = &c03SB{h: h, nextIf: 1000}
 	h.reg = allocator.InitGlobalRegistry(v4, nil)
@@ -417,7 +452,7 @@ func c03NewHarness(poolSize int) *c03Harness {
 	}
 	h.c = &Component{
 		Base:             component.NewBase("pppoe-c03"),
-		logger:           logger.NewTest(),
+		logger:           c03HookedLogger(h.hook),
 		eventBus:         h.bus,
 		ifMgr:            ifMgr,
 		cfgMgr:           &c03CfgMgr{cfg: cfg},
@@ -649,6 +684,62 @@ func (h *c03Harness) sendFrame(i int, proto, kind string) {
 	}
 }
 
+// raced: the frame is processed by the receive path (which owns the session lock, as handlePPP does) while the AAA
+// answer has already been matched to the session by its pending request id and waits for that lock.
+func (h *c03Harness) raced(i int, proto, kind string, k int, akind string) {
+	s := h.sess[i]
+	if s == nil {
+		h.aaa(k, akind)
+		return
+	}
+	pnum, payload, ok := h.frame(i, proto, kind)
+	if !ok {
+		h.emit(strconv.Itoa(i), "badframe:"+proto+":"+kind)
+		return
+	}
+	h.c.sessionMu.RLock()
+	live := h.c.sidIndex[s.PPPoESessionID] == s
+	h.c.sessionMu.RUnlock()
+	s.mu.Lock() // handlePPP: s.mu.Lock(); defer s.mu.Unlock(); dispatcher.HandleFrame
+	h.hook.mu.Lock()
+	h.hook.armed, h.hook.reached = true, make(chan struct{})
+	reached := h.hook.reached
+	h.hook.mu.Unlock()
+	done := make(chan interface{}, 1)
+	go func() {
+		defer func() { done <- recover() }()
+		h.aaa(k, akind)
+	}()
+	finished := false
+	var pa interface{}
+	select {
+	case <-reached: // matched, now blocked on s.mu
+	case pa = <-done: // no session matched: the answer was dropped before touching the session
+		finished = true
+	case <-time.After(2 * time.Second):
+	}
+	h.hook.mu.Lock()
+	h.hook.armed = false
+	h.hook.mu.Unlock()
+	if live {
+		_ = s.dispatcher.HandleFrame(pnum, payload)
+	}
+	s.mu.Unlock()
+	if !finished {
+		select {
+		case pa = <-done:
+		case <-time.After(5 * time.Second):
+			panic("raced: handleAAAResponse did not return")
+		}
+	}
+	if pa != nil {
+		panic(pa)
+	}
+	for k := 0; k < 2000 && len(h.c.dhcp6Sem) > 0; k++ {
+		time.Sleep(50 * time.Microsecond)
+	}
+}
+
 func (h *c03Harness) aaa(k int, kind string) {
 	id := ""
 	switch {
@@ -733,6 +824,11 @@ func (h *c03Harness) step(ev string) {
 		h.sendFrame(idx(f[1]), f[2], f[3])
 	case "a":
 		h.aaa(idx(f[1]), f[2])
+	case "R": // R:<i>:<proto>:<kind>&a:<k>:<akind>
+		ab := strings.SplitN(ev[2:], "&", 2)
+		fa := strings.Split(ab[0], ":")
+		fb := strings.Split(ab[1], ":")
+		h.raced(idx(fa[0]), fa[1], fa[2], idx(fb[1]), fb[2])
 	case "t":
 		s := h.sess[idx(f[1])]
 		if s == nil {
